@@ -47,6 +47,9 @@ def evaluate(ctx, fx, c, rule):
             ctx.violation(rule, key + ["location"], where, f"error located at line(s) {w['markers']}", f"errors at lines {sorted(lines)} ({errs[0].get('code')}: {errs[0]['message'][:200]})",
                           "the program is rejected but the diagnostic does not point at the offence: " + w.get("what", ""))
         if w.get("exact"):
+            ctx.extra.setdefault("exact_witnesses", {})[c["name"]] = {"items_that_must_be_rejected": len(w["markers"]), "items_rustc_rejected": len(lines),
+                                                                        "sets_equal": set(w["markers"]) == lines}
+            ctx.inst(rule + ".exact-items", len(w["markers"]))
             extra = sorted(lines - set(w["markers"]))
             if extra:
                 ok = False
